@@ -83,6 +83,8 @@ impl Stats {
             }
             let k = if e.ret < 0 {
                 format!("{}:{}", e.op, errno_name(e.errno))
+            } else if e.ret == 0 && e.op == "write" {
+                "write:zero".to_string()
             } else {
                 format!("{}:short", e.op)
             };
@@ -110,6 +112,8 @@ pub fn errno_name(e: i32) -> &'static str {
         libc::EEXIST => "EEXIST",
         libc::EFBIG => "EFBIG",
         libc::ENOMEM => "ENOMEM",
+        libc::ELOOP => "ELOOP",
+        libc::ENAMETOOLONG => "ENAMETOOLONG",
         _ => "E?",
     }
 }
@@ -346,6 +350,10 @@ impl<'a> Worker<'a> {
                 if case.steps[i].plan.is_empty() {
                     continue;
                 }
+                if only_meta_faults(o) {
+                    self.stats.probe("metadata-fault:tolerated-or-failed(not compared)");
+                    continue;
+                }
                 if let Some(go) = g.get(i) {
                     if let Some(d) = success_differs(go, o) {
                         v.push(Violation { class: format!("failstop:exit0-differs:{}:{}", cmd_kind(&case.steps[i]), file_role(&d)), detail: format!("plan={} differs in {}", case.steps[i].plan, d) });
@@ -467,7 +475,9 @@ impl<'a> Worker<'a> {
             v.extend(term_violations(&self.ctx.cfg, &o));
             v.extend(diag_violations(&o));
         }
-        if o.ok() {
+        if o.ok() && only_meta_faults(&o) {
+            self.stats.probe("metadata-fault:tolerated(not compared)");
+        } else if o.ok() {
             if let Some(d) = success_differs(&g[k], &o) {
                 let benign = plan_is_benign(&case.steps[k].plan);
                 v.push(Violation {
@@ -489,6 +499,22 @@ impl<'a> Worker<'a> {
         }
         v
     }
+}
+
+pub fn is_meta_op(op: &str) -> bool {
+    matches!(op, "stat" | "lstat" | "fstat" | "realpath" | "readlink" | "getcwd")
+}
+
+/// true iff something was injected and every injected event is a metadata call
+pub fn only_meta_faults(o: &Outcome) -> bool {
+    let mut any = false;
+    for e in o.events.iter().filter(|e| e.injected && e.op != "getrandom") {
+        any = true;
+        if !is_meta_op(&e.op) {
+            return false;
+        }
+    }
+    any
 }
 
 /// If the run exited 0: name of the first output (file or stdout) that differs from golden, if any.
@@ -543,6 +569,9 @@ pub fn apply_variant(base: &Case, v: &Variant) -> Case {
 pub struct FaultSpace {
     pub read_side: bool,
     pub write_side: bool,
+    /// also fault the metadata calls (stat family, realpath, readlink, getcwd) — judged by O-term /
+    /// O-diag only: whether a path that cannot be examined "supplies" anything is not for us to say
+    pub meta_side: bool,
     pub budgets: Budgets,
     pub seed: u64,
 }
@@ -570,10 +599,17 @@ pub fn enumerate_faults(step_idx: usize, golden: &Outcome, space: &FaultSpace) -
                 if e.ret > 1 {
                     shorts.extend([1, e.ret / 2]);
                 }
+                if e.ret > 0 {
+                    out.push(Variant { corrupt: None, plan: Some((step_idx, format!("at={}:zero", e.seq))), tag: format!("write@{}:zero", e.seq) });
+                }
                 total_written += e.ret.max(0);
             }
             "lseek" if (space.write_side && golden_is_write_fd(golden, e)) || (space.read_side && !golden_is_write_fd(golden, e)) => errs.extend(["ESPIPE", "EIO"]),
             "mkdir" if space.write_side => errs.extend(["EACCES", "ENOSPC", "EIO"]),
+            "stat" | "lstat" | "fstat" if space.meta_side => errs.extend(["ENOENT", "EACCES", "EIO", "ELOOP"]),
+            "realpath" if space.meta_side => errs.extend(["ENOENT", "EACCES", "EIO", "ELOOP", "ENAMETOOLONG"]),
+            "readlink" if space.meta_side => errs.extend(["EACCES", "EIO"]),
+            "getcwd" if space.meta_side => errs.extend(["ENOENT", "EACCES"]),
             _ => {}
         }
         for er in errs {
